@@ -642,9 +642,56 @@ std::string shape_of(qtreetbl_obj_t *o, const std::vector<std::string> &keys) {
 }
 }  // namespace
 
+// Tall trees (thorough tier): a monotone load is the worst case of the left-leaning tree - the
+// leftmost (descending load) path has 2k-2 nodes at n = 2^k-2 keys - so 3.4 million keys give
+// search paths of 41 nodes, beyond any "40 levels are plenty" assumption in the code.  The tree
+// must stay valid, complete and logarithmic all the way, and come down again cleanly.
+static void tall_tree(Ctx &c, EnumStats &st, bool descending) {
+    const long N = 3400000;
+    g_cmpkind = 0;
+    qtreetbl_t *t = qtreetbl(0);
+    if (!t) throw CaseStop{"ctor"};
+    struct G { qtreetbl_t *t; ~G() { qtreetbl_free(t); } } g{t};
+    auto keyof = [&](long i) { char b[16]; snprintf(b, sizeof b, "%07ld", i); return std::string(b); };
+    auto verify = [&](long n, const char *when) {
+        c.trace = strf("tall tree: %s load of %ld keys, %s", descending ? "descending" : "ascending", n, when);
+        Shape sh = check_shape(t);
+        if (!sh.ok) c.fail(SHAPE, "tree:shape", "%s after a %s load of %ld keys (%s)", sh.why, descending ? "descending" : "ascending", n, when);
+        if (sh.count != (size_t)n || qtreetbl_size(t) != (size_t)n) c.fail(SHAPE, "tree:count", "%zu nodes reachable, size()=%zu, %ld keys stored (%s)", sh.count, qtreetbl_size(t), n, when);
+        int bound = (int)floor(2.0 * log2((double)n + 1.0) + 1e-9);
+        if (n > 0 && sh.height > bound) c.fail(COST, "tree:height", "height %d with %ld keys, a left-leaning red-black tree has at most %d levels", sh.height, n, bound);
+        if (qtreetbl_check(t) != 0) c.fail(SHAPE, "tree:selfcheck-disagrees", "qtreetbl_check() reports a violation on a tree the independent checker accepts (%ld keys)", n);
+        st.extra[descending ? "tall_tree_height_descending" : "tall_tree_height_ascending"] = (uint64_t)sh.height;
+        st.evaluations++; st.nontrivial++;
+    };
+    long next_check = 1022;
+    for (long i = 0; i < N; i++) {
+        long k = descending ? N - 1 - i : i;
+        std::string key = keyof(k);
+        if (!qtreetbl_putstr(t, key.c_str(), "v")) c.fail(FUNC, "tree:put-failed", "put of key %s (number %ld of a monotone load) failed", key.c_str(), i + 1);
+        if (i + 1 == next_check) { verify(i + 1, "during the load"); next_check = (next_check + 2) * 4 - 2; }
+    }
+    verify(N, "load complete");
+    // the deep end: lookups, replacement, removal and re-insertion of the keys at the far ends
+    for (long k : {0L, 1L, 2L, N / 2, N - 3, N - 2, N - 1}) {
+        std::string key = keyof(k);
+        char *v = qtreetbl_getstr(t, key.c_str(), false);
+        if (!v || strcmp(v, "v") != 0) c.fail(FUNC, "tree:get-missing", "key %s of the %ld loaded keys is not found", key.c_str(), N);
+        if (!qtreetbl_putstr(t, key.c_str(), "w")) c.fail(FUNC, "tree:put-failed", "replacing key %s failed", key.c_str());
+    }
+    verify(N, "after replacing keys at both ends");
+    long removed = 0;
+    for (long k = 0; k < N; k += (k < 2000 || k > N - 2000) ? 1 : 7) { if (!qtreetbl_remove(t, keyof(k).c_str())) c.fail(FUNC, "tree:remove-result", "remove of stored key %s returned false", keyof(k).c_str()); removed++; }
+    verify(N - removed, "after removing both ends and every 7th key");
+    for (long k = 0; k < 2000; k++) if (!qtreetbl_putstr(t, keyof(k).c_str(), "x")) c.fail(FUNC, "tree:put-failed", "re-inserting key %s failed", keyof(k).c_str());
+    verify(N - removed + 2000, "after re-inserting the low end");
+    st.samples.push_back(strf("tall tree: %s load of %ld keys, validity/height/count checked at 7 sizes during the load, after replacements, after removing ~1/7 of the keys, after re-insertion", descending ? "descending" : "ascending", N));
+}
+
 bool vf_enumerate(Ctx &c, EnumStats &st) {
     int shard = 0, nshards = 1;
     if (const char *e = getenv("VF_ENUM_SHARD")) sscanf(e, "%d/%d", &shard, &nshards);
+    if (c.tier && c.mode == "C02" && (shard == 0 || shard == 1)) tall_tree(c, st, shard == 0);
     int K = c.tier ? 11 : 9;
     int variant = shard % 5;
     g_cmpkind = variant;
